@@ -8,7 +8,7 @@ PROPS = "RlibModel.Props.C15"
 PROFILES = ["release"]
 SHRINK_SEP = None
 RULE = ("cases: every mask of u8/i8 for iter_submasks and iter_supermasks; u16/i16 exhaustively in the thorough tier (quick: every mask with "
-        "<= 5 free bits + 1/64 sample); the 8 wider types with <= 12 free bits (contiguous / top-bit / boundary-anchored / random patterns, "
+        "<= 4 free bits + 1/64 sample); the 8 wider types with <= 12 free bits (contiguous / top-bit / boundary-anchored / random patterns, "
         "plus 0, 1, MIN, MAX, all-ones); next_permutation on every sequence over {0,1,2} of length <= 7, every permutation of <= 8 "
         "(quick: 7) distinct elements, random multisets incl. i64::MIN/MAX; iter_permutations on every multiset over {0,1,2} of length <= 7, "
         "0..8 distinct elements (unsorted input), random multisets; the three neighbour iterators on every grid <= 6x6 (0xk, kx0, 1x1 "
